@@ -142,6 +142,12 @@ def cases(tier, seed):
                     for what, raw in (('huge-minor-version', b'SSH-2.' + b'1' * 5000 + b'-OpenSSH_9.3' + eol), ('huge-software', b'SSH-2.0-' + b'A' * 9000 + eol), ('long-line-no-newline', b'X' * 9000),
                                       ('many-header-lines', b''.join(b'line %d\r\n' % i for i in range(400)) + data), ('nul-bytes', b'\x00' * 64 + data), ('only-newlines', b'\n' * 3000 + data)):
                         cs.append({'T': T, 'op': 'crafted', 'conn': conn, 'at': label, 'what': 'banner:' + what, 'hex': raw.hex()})
+                if label == 'pkm':
+                    good = wire.ssh1_pkm(0x48, 0x0c, 1024, 768)
+                    variants = {'short-payload': good[:20], 'cookie-only': good[:8], 'empty': b'', 'no-masks': good[:-8], 'mpint-bits-huge': good[:12] + b'\xff\xff' + good[14:], 'trailing-bytes': good + b'\0' * 7,
+                                'host-bits-zero': good, 'one-byte': b'\x01'}
+                    for nm, pl in variants.items():
+                        cs.append({'T': T, 'op': 'crafted', 'conn': conn, 'at': label, 'what': 'ssh1-valid-crc:' + nm, 'hex': wire.ssh1_packet(2, pl).hex()})
                 if label not in ('banner', 'vdiff', 'pkm'):
                     t = data[5]
                     crafted = {'empty-payload': wire.u32(12) + bytes([11]) + b'\0' * 11, 'type-only': wire.packet(bytes([t])), 'type-plus-4': wire.packet(bytes([t]) + b'\0\0\0\1'),
@@ -160,7 +166,13 @@ def cases(tier, seed):
             if 'kexinit' in msgs:
                 for o in (1, 4, 5, 6, 100, len(msgs['kexinit'][0]) - 1):
                     cs.append({'T': T, 'op': 'split', 'at': 'kexinit', 'offset': o})
-    return cs
+    # the same faults under verbose / debug output (extra code runs on the error paths then); every 4th case, alternating
+    out = []
+    for i, c in enumerate(cs):
+        out.append(c)
+        if i % 4 == 1 and c['op'] in ('close_before', 'stall_before', 'truncate', 'patch', 'random', 'crafted', 'dup') and (tier == 'thorough' or i % 8 == 1):
+            out.append(dict(c, opts=['-v'] if (i // 4) % 2 == 0 else ['-d']))
+    return out
 
 
 def _v(key, what, **d):
@@ -287,7 +299,7 @@ def run_case(c):
     if T == 'T6':
         port = audit.free_port()
         cp = peermod.ClientPeer(s, port)
-        r = runner.run_cli(['-c', '-p', str(port), '-t', '2', '-n'], timeout=90, monitors=mon)
+        r = runner.run_cli(['-c', '-p', str(port), '-t', '2', '-n'] + list(c.get('opts', [])), timeout=90, monitors=mon)
         cp.stop()
         p = cp
         if 'failed to listen' in r.err:
@@ -296,7 +308,7 @@ def run_case(c):
             return {'verdict': 'inconclusive', 'why': 'client peer never connected'}
         tmo = 2.0
     else:
-        r, p = audit.audit_server(s, ['-n', '-t', '1'], monitors=mon, timeout=120)
+        r, p = audit.audit_server(s, ['-n', '-t', '1'] + list(c.get('opts', [])), monitors=mon, timeout=120)
         tmo = 1.0
     viol, counters = [], {}
     applied = p.count('fault') > 0 or c['op'] in ('none', 'pre', 'segment')
@@ -345,7 +357,8 @@ def run_case(c):
     else:
         conn = p.conns[0] if p.conns else None
         verdict, info = first_connection_verdict(conn.tx) if conn is not None else ('malformed', 'no connection')
-    rep = report.parse_text(r.out)
+    is_verbose = '-v' in c.get('opts', [])
+    rep = report.parse_text(r.out, verbose=is_verbose)
     if verdict == 'ok':
         counters['expected_report'] = 1
         if r.status == 1 or not rep.has_alg_lines():
@@ -357,6 +370,9 @@ def run_case(c):
             k = {f: [x.decode('utf-8', 'replace') for x in info[f]] for f in wire.KEX_FIELDS}
             want = {'kex': k['kex'], 'key': k['key'], 'enc': k['enc_sc'], 'mac': k['mac_sc']}
             got = {cat: rep.names(cat) for cat in want}
+            if is_verbose:   # verbose rendering repeats the name on every note line: compare after merging consecutive repeats
+                got = {cat: c01.merge_consecutive(v) for cat, v in got.items()}
+                want = {cat: c01.merge_consecutive(v) for cat, v in want.items()}
             # names the mutation made RFC-illegal (control characters, spaces, non-ASCII) are outside what a report can list faithfully: only presence of a report is demanded then
             legal = all(0x21 <= ord(ch) <= 0x7e for cat in want for x in want[cat] for ch in x)
             if legal and got != {cat: [x for x in want[cat] if x.strip()] for cat in want}:
